@@ -153,20 +153,21 @@ def kept_tokens(src: str):
             return out
 
 
-def parse_request(ir, toks, rule="file", fuel=2000000):
+def parse_request(ir, toks, rule="file", fuel=2000000, verbose=False):
     strs = ir["strings"]
     kws = set(ir["keywords"])
     soft = set(ir["soft_keywords"])
     names = [r["name"] for r in ir["rules"]]
-    fields = ["parse", str(names.index(rule)), str(fuel)]
+    fields = ["parsev" if verbose else "parse", str(names.index(rule)), str(fuel)]
     for t in toks:
         sid = strs.get(t.string, len(strs))
         fields.append(f"{t.type.name}:{sid}:{1 if t.string in kws else 0}:{1 if t.string in soft else 0}")
     return " ".join(fields)
 
 
-def impl_parse_observation(src: str, mode="exec"):
+def impl_parse_observation(src: str, mode="exec", verbose=False):
     """What the real parser does, in the vocabulary of the recogniser model."""
+    import contextlib
     import io
 
     from peg_parser.parser import XonshParser
@@ -191,12 +192,13 @@ def impl_parse_observation(src: str, mode="exec"):
             return super().reset(index)
 
     tz = Counting(generate_tokens(io.StringIO(src).readline))
-    p = XonshParser(tz)
+    p = XonshParser(tz, verbose=verbose)
     rule = "file" if mode == "exec" else "eval"
     # first pass only (what decides acceptance), exactly as Parser.parse starts
     p.call_invalid_rules = False
     try:
-        res = getattr(p, rule)()
+        with contextlib.redirect_stdout(io.StringIO()):
+            res = getattr(p, rule)()
     except SyntaxError as e:
         return {"k": "raised", "msg": e.msg}
     except TokenError:
@@ -207,26 +209,26 @@ def impl_parse_observation(src: str, mode="exec"):
     return obs
 
 
-def _peg_case(src, mode="exec"):
+def _peg_case(src, mode="exec", verbose=False):
     if "!" in src.replace("!=", ""):
         return None
     try:
         toks = kept_tokens(src)
     except BaseException:  # noqa: BLE001
         return None
-    obs = impl_parse_observation(src, mode)
+    obs = impl_parse_observation(src, mode, verbose)
     if obs["k"] in ("recursion", "tokerr"):
         return None
-    return (parse_request(load_ir(), toks, "file" if mode == "exec" else "eval"), obs, src)
+    return (parse_request(load_ir(), toks, "file" if mode == "exec" else "eval", verbose=verbose), obs, src)
 
 
-def peg_cases(srcs, mode="exec"):
+def peg_cases(srcs, mode="exec", verbose=False):
     """(request, expected, source) for the first pass of every source (sources with macro triggers are skipped)."""
-    res = _pooled("_peg_case", [(s, mode) for s in srcs], timeout=30)
+    res = _pooled("_peg_case", [(s, mode, verbose) for s in srcs], timeout=60 if verbose else 30)
     return [tuple(r) for r in res if isinstance(r, (tuple, list))]
 
 
-def run_peg_correspondence(rep, cases, name="recogniser-IR"):
+def run_peg_correspondence(rep, cases, name="recogniser-IR", verbose=False):
     """Model (first pass over the regenerated IR) vs implementation: outcome, end position, tokens fetched and the
     three call counters must be EQUAL."""
     if not DRIVER.exists():
@@ -252,7 +254,9 @@ def run_peg_correspondence(rep, cases, name="recogniser-IR"):
             continue
         ok = (obs["k"] == "tree") == (first == "ok")
         if ok:
-            for k in ("pos", "fetched", "peeks", "nexts", "resets"):
+            # verbose=True: the trace's own showpeek() calls are not part of the model (their only possible effect on a
+            # result, one more token fetched, is what the `fetched` comparison below would show)
+            for k in ("pos", "fetched", "nexts", "resets") if verbose else ("pos", "fetched", "peeks", "nexts", "resets"):
                 if int(kv[k]) != obs[k]:
                     ok = False
         if ok:
@@ -260,7 +264,8 @@ def run_peg_correspondence(rep, cases, name="recogniser-IR"):
         else:
             bad.append({"source": src, "implementation": obs, "model": ans})
     rep.extra.setdefault("correspondence", {})[name] = {"requests": len(cases), "disagreements": len(bad), **stats}
-    rep.obligation(f"corr:{name} (first-pass outcome, end, tokens fetched, peek/getnext/reset counts equal on {len(cases)} inputs)", not bad, str(bad[:2])[:600] if bad else "")
+    what = "getnext/reset counts" if verbose else "peek/getnext/reset counts"
+    rep.obligation(f"corr:{name} (first-pass outcome, end, tokens fetched, {what} equal on {len(cases)} inputs)", not bad, str(bad[:2])[:600] if bad else "")
     return bad
 
 
